@@ -220,7 +220,40 @@ def wild_newton_step(case, out):
             continue
         if np.max(np.abs(o.w)) > 1e3 * ref or not np.all(np.isfinite(o.w)):
             return True
-    return False
+    return saturated_iterate(case)
+
+
+def saturated_iterate(case):
+    """same root cause reached gradually (unbounded problem: separable data with an unpenalised / sign-constrained
+    direction): the iterates drift until every sample is saturated, the Hessian weights underflow (~1e-300) and the
+    next prox-Newton step is 1/0-sized.  Probe: the last finite outer iterate before the first non-finite one has
+    Hessian weights that are numerically zero."""
+    import json
+    full = int(case["solver"].get("max_iter", 0))
+    prev = None
+    for k in range(1, min(full, 60) + 1):
+        c = json.loads(json.dumps(case))
+        c["solver"]["max_iter"] = k
+        o = P.run(c)
+        if o.exc is not None or o.w is None:
+            return False
+        if not np.all(np.isfinite(np.asarray(o.w, float))):
+            break
+        prev = np.asarray(o.w, float)
+    else:
+        return False
+    if prev is None:
+        return False
+    try:
+        loss = P.ref_loss(case)
+        X = np.array(case["X"], float)
+        y = np.array(case["y"], float)
+        w, b, _ = P.split(case, prev)
+        with np.errstate(all="ignore"):
+            h = np.asarray(loss.hess(y, X @ w + b), float)
+        return bool(np.all(np.isfinite(h)) and np.max(np.abs(h)) < 1e-100)
+    except Exception:  # noqa -- no reference Hessian for this loss: not this root cause
+        return False
 
 
 def multitask_fixpoint(case, W_full, c):
